@@ -963,7 +963,7 @@ def main(chk: core.Check) -> int:
     chk.rule = RULE + " || " + c16_wilcoxon.RULE
     if not getattr(chk, "no_prove", False):
         chk.prove(["OptunaVerif.Props.C16", "OptunaVerif.Props.C16Gen"] + c16_wilcoxon.PROPS_MODULES + c16_skel.PROPS_MODULES
-                  + [c16_report_gen.MODULE])
+                  + [c16_report_gen.MODULE, "OptunaVerif.Props.C16Bracket"])
         c16_report_gen.explain_proof_failure(chk)  # names of the obligations of Props/C16ReportGen.lean that no longer check
     try:
         core.ensure_driver()
